@@ -268,83 +268,6 @@ fn small_machine(g: &mut Gen) -> Machine {
     mach::gen_machine(g, &mc)
 }
 
-/// make exactly one field of a valid machine invalid
-fn invalidate(g: &mut Gen, mut m: Machine) -> (Machine, String) {
-    use enum_map::enum_map;
-    use maybenot::state::{State, Trans};
-    let n = m.states.len();
-    let si = g.usize(n);
-    let bad_f = |g: &mut Gen| *g.pick(&[f64::NAN, f64::INFINITY, -0.5, 1.5, -1e-300, 1.0000000000000002]);
-    let bad_p = |g: &mut Gen| *g.pick(&[0.0f32, -0.5, 1.5, f32::NAN, f32::INFINITY, 1.0000001]);
-    let rebuild = |st: &State, f: &mut dyn FnMut(&mut enum_map::EnumMap<maybenot::event::Event, Vec<Trans>>)| -> State {
-        let mut t = st.get_transitions();
-        f(&mut t);
-        let mut s2 = State::new(t);
-        s2.action = st.action;
-        s2.counter = st.counter;
-        s2
-    };
-    let ev = *g.pick(&mach::ALL_EVENTS);
-    let what = match g.below(10) {
-        0 => {
-            m.max_padding_frac = bad_f(g);
-            "max_padding_frac"
-        }
-        1 => {
-            m.max_blocking_frac = bad_f(g);
-            "max_blocking_frac"
-        }
-        2 => {
-            m.states.clear();
-            "no states"
-        }
-        3 => {
-            let to = n + g.usize(3);
-            m.states[si] = rebuild(&m.states[si], &mut |t| t[ev] = vec![Trans(to, 1.0)]);
-            "transition target out of bounds"
-        }
-        4 => {
-            m.states[si] = rebuild(&m.states[si], &mut |t| t[ev] = vec![Trans(0, 0.25), Trans(0, 0.25)]);
-            "duplicate transition target"
-        }
-        5 => {
-            let p = bad_p(g);
-            m.states[si] = rebuild(&m.states[si], &mut |t| t[ev] = vec![Trans(0, p)]);
-            "transition probability outside (0,1]"
-        }
-        6 => {
-            let second = if n > 1 { 1 } else { maybenot::constants::STATE_END };
-            m.states[si] = rebuild(&m.states[si], &mut |t| t[ev] = vec![Trans(0, 0.75), Trans(second, 0.5)]);
-            "transition probabilities sum above 1"
-        }
-        7 => {
-            let d = crate::distsim::rejected_dist(g);
-            m.states[si].action = Some(match g.below(3) {
-                0 => maybenot::action::Action::SendPadding { bypass: false, replace: false, timeout: d, limit: None },
-                1 => maybenot::action::Action::BlockOutgoing { bypass: false, replace: false, timeout: mach::cdist(1.0), duration: d, limit: None },
-                _ => maybenot::action::Action::UpdateTimer { replace: false, duration: mach::cdist(1.0), limit: Some(d) },
-            });
-            "invalid distribution in an action"
-        }
-        8 => {
-            let d = crate::distsim::rejected_dist(g);
-            let c = maybenot::counter::Counter::new_dist(maybenot::counter::Operation::Increment, d);
-            if g.bool() {
-                m.states[si].counter.0 = Some(c);
-            } else {
-                m.states[si].counter.1 = Some(c);
-            }
-            "invalid distribution in a counter"
-        }
-        _ => {
-            let _ = enum_map! { maybenot::event::Event::NormalRecv => 0u8, _ => 0u8 };
-            m.states[si] = rebuild(&m.states[si], &mut |t| t[ev] = vec![Trans(maybenot::constants::STATE_SIGNAL + 1, 1.0)]);
-            "transition target beyond the pseudo-states"
-        }
-    };
-    (m, what.to_string())
-}
-
 fn gen_machine_for_roundtrip(g: &mut Gen, stats: &mut Stats) -> Machine {
     match g.below(40) {
         0 => {
@@ -953,7 +876,7 @@ impl C11 {
             },
             30..=33 => {
                 let base = small_machine(g);
-                let (machine, what) = invalidate(g, base);
+                let (machine, what) = mach::invalidate(g, base);
                 Case::Invalid { machine, what }
             }
             34..=74 => {
